@@ -38,6 +38,14 @@ def jobs(tier):
     for extra in (False, True):
         out.append(CH(name=f"c20_gate_float_{'longer' if extra else 'same'}", func=f"{H}:c20_gate_float", params=[("a", "float"), ("b", "float")], pre=[],
                       fixed={"extra": extra}, timeout=120, note="GateStatement equality on unconstrained symbolic floats (incl. NaN, inf)", functions=FUNCS))
+    for where in range(3):
+        for as_float in (False, True):
+            for via in ((0, 1) if not q else (0,) if as_float else (1,)):
+                out.append(CH(name=f"c20_twice_w{where}_{'f' if as_float else 'i'}_via{via}", base="c20_twice", func=f"{H}:c20_twice", params=[("a", "int"), ("b", "int")],
+                              pre=["-3 <= a <= 3" if q else "-5 <= a <= 5", "-3 <= b <= 3" if q else "-5 <= b <= 5"], fixed={"where": where, "as_float": as_float, "via": via},
+                              timeout=200, functions=FUNCS + ["GateMemoizer.build_gate", "GateMemoizer._make_gate_memo_key"],
+                              note="the same gate called twice with numbers a and b (main body / loop / macro body): statements carry a and b, and the program "
+                                   "equals the one calling it with a twice exactly when a == b"))
     for kind in range(9):
         out.append(CH(name=f"c20_core_int_kind{kind}", func=f"{H}:c20_core_int", params=[("a", "int"), ("b", "int")],
                       pre=["0 <= a <= 19" if kind in (3, 4, 5) else "1 <= a <= 19" if kind in (2, 6) else "True",
